@@ -219,83 +219,88 @@ def exprs (cfg : Cfg) : Nat → List Expr → St → Res (List Value × St)
 /-- src: `Interpreter::stmt` -/
 def stmt (cfg : Cfg) : Nat → Stmt → St → Res St
   | 0, _, _ => .fuel
-  | f+1, .expr e, σ => (expr cfg f e σ).bind fun (_, σ) => .ok σ
-  | f+1, .ifs c t e _ _, σ =>
-    (expr cfg f c σ).bind fun (v, σ) =>
-    if truthy v then stmt cfg f t σ
-    else (match e with | some e => stmt cfg f e σ | none => .ok σ)
-  | f+1, .repeatTimes count body _ _ countTok, σ =>
-    (expr cfg f count σ).bind fun (v, σ) =>
-    (match v with
-     | .num n =>
-       (repeatLoop cfg f (countOf n) body { σ with loops := {} :: σ.loops }).bind popLoop
-     | _ => rtErr "Invalid Value for nTIMES" countTok.span σ)
-  | f+1, .repeatUntil cond body _ _, σ =>
-    (untilLoop cfg f cond body { σ with loops := {} :: σ.loops }).bind popLoop
-  | f+1, .forEach item _ list body _ _ _ listTok, σ =>
-    (expr cfg f list σ).bind fun (v, σ) =>
-    (match v with
-     | .list a => .ok (a, σ)
-     | .str s => let (a, σ) := allocCell σ (.list ((StrOps.charsToStrs s).map Value.str)); .ok (a, σ)
-     | _ => rtErr "Invalid Iterator" listTok.span σ : Res (Nat × St)).bind fun (a, σ) =>
-    (removeVar σ item).bind fun (cached, σ) =>
-    (match getList σ a with
-     | some vs => .ok vs.length
-     | none => .panic "dangling list" σ : Res Nat).bind fun len =>
-    (forLoop cfg f item a 0 len body { σ with loops := {} :: σ.loops }).bind fun σ =>
-    (popLoop σ).bind fun σ =>
-    (match cached with
-     | some v => define σ item v
-     | none => .ok σ)
-  | _+1, .procDecl name params body exported _ _, σ =>
-    let p := Proc.user (params.map (·.1)) body
-    .ok { σ with procs := σ.procs.insert name p,
-                 exports := if exported then σ.exports.insert name p else σ.exports }
-  | f+1, .ret _ value, σ =>
-    (match value with
-     | none => .ok { σ with ret := some .null }
-     | some e => (expr cfg f e σ).bind fun (v, σ) => .ok { σ with ret := some v })
-  | _+1, .cont _, σ =>
-    (match σ.loops with
-     | [] => .panic "loop_stack.last_mut" σ
-     | lc :: rest => .ok { σ with loops := { lc with cont := true } :: rest })
-  | _+1, .brk _, σ =>
-    (match σ.loops with
-     | [] => .panic "loop_stack.last_mut" σ
-     | lc :: rest => .ok { σ with loops := { lc with brk := true } :: rest })
-  | f+1, .block _ stmts _, σ =>
-    (createNested σ).bind fun σ => (block cfg f stmts σ).bind flattenNested
-  | f+1, .import_ _ _ _ only modName, σ =>
-    (match modName.lit with
-     | .str name => .ok name
-     | _ => .panic "import: unreachable" σ : Res Str).bind fun name =>
-    (match cfg.modules name with
-     | some table => .ok (table, σ)
-     | none =>
-       -- user module (src: the `else` branch of `Stmt::Import`)
-       let path := joinPath (dirOf σ.filePath) name
-       if !hasApExtension path then rtErr "std module not found" modName.span σ else
-       match Fs.fileRead σ.world.fs path with
-       | none => rtErr "module file does not exist" modName.span σ
-       | some src =>
-         let lexed := lex cfg.lex src
-         if !lexed.errors.isEmpty then rtErr "module has lexical errors" modName.span σ else
-         match parse (parseFuel lexed.tokens.length) lexed.tokens with
-         | .ok prog =>
-           -- a fresh interpreter for the module (src: `execute_as_module`); heap, output channel and
-           -- the world are the process's
-           let core := (cfg.modules "CORE".toList).getD []
-           (program cfg f prog { σ with scopes := [[]], procs := FunTable.extend [] core, exports := [],
-                                        ret := none, loops := [], filePath := path }).bind fun σm =>
-           .ok (σm.exports, { σm with scopes := σ.scopes, procs := σ.procs, exports := σ.exports,
-                                      ret := σ.ret, loops := σ.loops, filePath := σ.filePath })
-         | .errs _ => rtErr "module has syntax errors" modName.span σ
-         | .panic p => .panic p σ
-         | .fuel => .fuel : Res (FunTable × St)).bind fun (module, σ) =>
-    (match only with
-     | some names => trimModule names module [] σ
-     | none => .ok module : Res FunTable).bind fun module =>
-    .ok { σ with procs := σ.procs.extend module }
+  | f+1, s, σ0 =>
+    match tick σ0 with
+    | none => .fuel
+    | some σ =>
+    match s with
+    | .expr e => (expr cfg f e σ).bind fun (_, σ) => .ok σ
+    | .ifs c t e _ _ =>
+      (expr cfg f c σ).bind fun (v, σ) =>
+      if truthy v then stmt cfg f t σ
+      else (match e with | some e => stmt cfg f e σ | none => .ok σ)
+    | .repeatTimes count body _ _ countTok =>
+      (expr cfg f count σ).bind fun (v, σ) =>
+      (match v with
+       | .num n =>
+         (repeatLoop cfg f (countOf n) body { σ with loops := {} :: σ.loops }).bind popLoop
+       | _ => rtErr "Invalid Value for nTIMES" countTok.span σ)
+    | .repeatUntil cond body _ _ =>
+      (untilLoop cfg f cond body { σ with loops := {} :: σ.loops }).bind popLoop
+    | .forEach item _ list body _ _ _ listTok =>
+      (expr cfg f list σ).bind fun (v, σ) =>
+      (match v with
+       | .list a => .ok (a, σ)
+       | .str s => let (a, σ) := allocCell σ (.list ((StrOps.charsToStrs s).map Value.str)); .ok (a, σ)
+       | _ => rtErr "Invalid Iterator" listTok.span σ : Res (Nat × St)).bind fun (a, σ) =>
+      (removeVar σ item).bind fun (cached, σ) =>
+      (match getList σ a with
+       | some vs => .ok vs.length
+       | none => .panic "dangling list" σ : Res Nat).bind fun len =>
+      (forLoop cfg f item a 0 len body { σ with loops := {} :: σ.loops }).bind fun σ =>
+      (popLoop σ).bind fun σ =>
+      (match cached with
+       | some v => define σ item v
+       | none => .ok σ)
+    | .procDecl name params body exported _ _ =>
+      let p := Proc.user (params.map (·.1)) body
+      .ok { σ with procs := σ.procs.insert name p,
+                   exports := if exported then σ.exports.insert name p else σ.exports }
+    | .ret _ value =>
+      (match value with
+       | none => .ok { σ with ret := some .null }
+       | some e => (expr cfg f e σ).bind fun (v, σ) => .ok { σ with ret := some v })
+    | .cont _ =>
+      (match σ.loops with
+       | [] => .panic "loop_stack.last_mut" σ
+       | lc :: rest => .ok { σ with loops := { lc with cont := true } :: rest })
+    | .brk _ =>
+      (match σ.loops with
+       | [] => .panic "loop_stack.last_mut" σ
+       | lc :: rest => .ok { σ with loops := { lc with brk := true } :: rest })
+    | .block _ stmts _ =>
+      (createNested σ).bind fun σ => (block cfg f stmts σ).bind flattenNested
+    | .import_ _ _ _ only modName =>
+      (match modName.lit with
+       | .str name => .ok name
+       | _ => .panic "import: unreachable" σ : Res Str).bind fun name =>
+      (match cfg.modules name with
+       | some table => .ok (table, σ)
+       | none =>
+         -- user module (src: the `else` branch of `Stmt::Import`)
+         let path := joinPath (dirOf σ.filePath) name
+         if !hasApExtension path then rtErr "std module not found" modName.span σ else
+         match Fs.fileRead σ.world.fs path with
+         | none => rtErr "module file does not exist" modName.span σ
+         | some src =>
+           let lexed := lex cfg.lex src
+           if !lexed.errors.isEmpty then rtErr "module has lexical errors" modName.span σ else
+           match parse (parseFuel lexed.tokens.length) lexed.tokens with
+           | .ok prog =>
+             -- a fresh interpreter for the module (src: `execute_as_module`); heap, output channel and
+             -- the world are the process's
+             let core := (cfg.modules "CORE".toList).getD []
+             (program cfg f prog { σ with scopes := [[]], procs := FunTable.extend [] core, exports := [],
+                                          ret := none, loops := [], filePath := path }).bind fun σm =>
+             .ok (σm.exports, { σm with scopes := σ.scopes, procs := σ.procs, exports := σ.exports,
+                                        ret := σ.ret, loops := σ.loops, filePath := σ.filePath })
+           | .errs _ => rtErr "module has syntax errors" modName.span σ
+           | .panic p => .panic p σ
+           | .fuel => .fuel : Res (FunTable × St)).bind fun (module, σ) =>
+      (match only with
+       | some names => trimModule names module [] σ
+       | none => .ok module : Res FunTable).bind fun module =>
+      .ok { σ with procs := σ.procs.extend module }
 
 /-- src: the statement loop of `Stmt::Block` -/
 def block (cfg : Cfg) : Nat → List Stmt → St → Res St
